@@ -45,6 +45,9 @@ type c10Params struct {
 	// SrvCap1: the servers' LRU caches hold one session each: a handshake with somebody else (the forged-id client)
 	// evicts the session the client still holds, which must then fall back to a full handshake
 	SrvCap1 bool `json:"srv_cap1,omitempty"`
+	// SrvShortRand: the servers' Config.Rand hands out at most 3 bytes per Read call (an io.Reader may): session
+	// identifiers must still be 32 fresh bytes
+	SrvShortRand bool `json:"srv_short_rand,omitempty"`
 }
 
 // plainT / plainD: the simplest SessionCache an application could write.
@@ -153,6 +156,7 @@ func drawC10(src *vs.Src) *c10Params {
 	}
 	p.PlainCaches = src.Bool(1, 3)
 	p.SrvCap1 = !p.PlainCaches && src.Bool(1, 3)
+	p.SrvShortRand = src.Bool(1, 4)
 	return p
 }
 
@@ -245,6 +249,7 @@ func (c10) Run(c *Case, src *vs.Src) *Result {
 		env.TCaches["s"], env.DCaches["s"] = tcS[op.Server], dcS[op.Server]
 		cc := &EPConf{Suites: clientSuites, ServerName: "server.test", Cache: "c", Roots: []string{"ca1"}}
 		sc := &EPConf{Suites: serverSuites[op.Server], Certs: []string{"server_sig", "server_enc"}, ClientCAs: []string{"ca1"}, Cache: "s"}
+		sc.ShortRand = p.SrvShortRand
 		if certSet == 1 {
 			cc.Roots, sc.Certs = []string{"ca2"}, []string{"server_untrusted_sig", "server_untrusted_enc"}
 		}
@@ -461,6 +466,15 @@ func (c10) Run(c *Case, src *vs.Src) *Result {
 		} else {
 			if len(srvID) != 32 {
 				r.Violate("session-id", sigp+" session-id-length", "%s: new session id has %d bytes", tag, len(srvID))
+			}
+			zeros := 0
+			for _, b := range srvID {
+				if b == 0 {
+					zeros++
+				}
+			}
+			if zeros > 12 {
+				r.Violate("session-id", sigp+" session-id-not-random", "%s: new session id %x has %d zero bytes (the server's Config.Rand returns short reads: %v)", tag, srvID, zeros, p.SrvShortRand)
 			}
 			if allIDs[sid] {
 				r.Violate("session-id", sigp+" session-id-reused", "%s: session id %x was issued before in this history", tag, srvID)
